@@ -223,3 +223,8 @@ package x509
 //@ loop 1 invariant forall j int :: 0 <= j && j < len(v) ==> v[j] != nil
 //@ loop 2 invariant forall j int :: 0 <= j && j < len(v) ==> v[j] != nil
 //@ at lax assert [lax-retry-on-the-same-remaining-input-and-target] lax.b == um.b && lax.params == "lax" && lax.val == um.val
+//@ site parseCertificate#1 as pc
+//@ at um assert [each-certificate-is-decoded-into-an-object-of-its-own-whose-optional-fields-start-absent] typeof(um.val) == *certificate && as(um.val, *certificate) != nil && len(as(um.val, *certificate).TBSCertificate.Extensions) == 0 && as(um.val, *certificate).TBSCertificate.UniqueId.BitLength == 0 && as(um.val, *certificate).TBSCertificate.SubjectUniqueId.BitLength == 0 && as(um.val, *certificate).TBSCertificate.Version == 0 && len(as(um.val, *certificate).Raw) == 0
+//@ loop 1 step-assert [one-object-collected-per-certificate] len(next(v)) == len(head(v)) + 1
+//@ loop 1 step-assert [the-object-just-decoded-is-collected-in-order] next(v)[len(head(v))] == as(um.val, *certificate)
+//@ at pc assert [every-collected-object-is-converted-in-order] pc.in == v[i]
